@@ -1,31 +1,510 @@
-//! C08 — placeholder (not registered in MANIFEST until built).
+//! C08 — ingress is content-addressed, idempotent and order-free.
+//!
+//! The network-shaped property. Clients hold a multiset of intents (kind, program bytes, cited
+//! causal parents, target = default writer / named inbox / exact head). A scenario fixes an *epoch
+//! partition* (which intents are first submitted between which scheduler passes — tick membership
+//! is a causality boundary per `canonical-inbox-sequencing.md`) and K delivery schedules that
+//! respect it: any order inside an epoch, 0–3 retries of each envelope in its own or any later
+//! epoch (while pending, after the commit, after a clean restart), eligibility changes at a
+//! schedule-chosen point between two passes. Every schedule runs on a fresh world.
+//!
+//! Oracle: (a) K-way equality inside a family of schedules with the same implied partition
+//! (pending sets per head before/after every pass, step records, provenance entries incl. tick
+//! receipts, final runtime / provenance / engine fingerprints minus arrival metadata);
+//! (b) the reference inbox model step by step (ingress id from the documented formula, pending =
+//! set per resolved head, batch = lowest ids up to the budget, first delivery Accepted, every
+//! retry Duplicate with the same submission id, rejections typed and without effect);
+//! (c) at-most-once per (head, ingress id) over the whole retained history; (d) identity.
+
+mod exec;
+mod gen;
+mod ident;
+
+use std::collections::BTreeSet;
 
 use serde::{Deserialize, Serialize};
 
 use crate::kernel::{Outcome, PropertySpec, Rng, RunCtx, Scenario, Tier};
+use crate::world::runtime::{TargetSpec, WorldSpec};
+use exec::{implied_partition, PassOut, Runner, Trace};
+use ident::CIntent;
 
 pub const SPEC: PropertySpec = PropertySpec {
     id: "C08",
     level: "exploration",
-    rule: "placeholder",
-    quick_runs: 1,
-    thorough_runs: 1,
-    real_components: &[],
-    stub_components: &[],
-    assumptions: &[],
-    fault_kinds: &[],
+    rule: "scenario = world (1-3 worldlines x 1-4 heads; AcceptAll / KindFilter / Budgeted{0..3}; default, named and exact routing) + intent multiset (2-14; deliberate exact duplicates, same content through another route or to another worldline, same bytes with other kind / other cited parent set) + epoch partition (1-4 member epochs + 0-2 drain epochs, one scheduler pass each) + 3-9 delivery schedules (per epoch any order, 0-3 retries per envelope in its own or a later epoch, eligibility change at a schedule-chosen point, optional clean restarts after chosen epochs in ticketed mode, optional no-restart twin, optional schedules of a different partition); first-delivery orders of epochs with <=6 members are drawn without replacement across schedules; non-trivial = >=2 intents first delivered in one epoch and >=2 distinct schedules in the family; distinct = hash of (world, intents, partition)",
+    quick_runs: 16_000,
+    thorough_runs: 250_000,
+    real_components: &[
+        "IngressEnvelope::local_intent_with_causal_parents / compute_ingress_id",
+        "WorldlineRuntime::ingest, submit_intent, ingest_ticketed_invocation, resolve_target, set_head_eligibility",
+        "HeadInbox ingest/admit with AcceptAll, KindFilter, Budgeted policies",
+        "SchedulerCoordinator::super_tick, Engine::commit_with_state (event materialisation), WorldlineState::committed_ingress",
+        "ProvenanceService (entries, tick receipts)",
+        "restart: witnessed_submission_persistence_snapshot, restore_witnessed_submission_persistence, restore_causal_runtime_history on a freshly built runtime / provenance service / engine",
+    ],
+    stub_components: &[
+        "application rules: data-driven interpreter, honest programs only",
+        "restart persistence medium: the harness carries the persisted material (submission snapshot, provenance entries, receipt correlations) in memory and plays the runtime owner that re-stages undecided submissions; TrustedRuntimeHost and its WAL are not involved (C10 covers them)",
+        "admission tickets: plain OpticAdmissionTicket values with a digest derived from (head, ingress id)",
+    ],
+    assumptions: &[
+        "excluded from K-way equality as Echo-owned arrival metadata: the per-record `submission_generation` inside `witnessed_submissions` (coordinator.rs: 'audit metadata for accepted ingress history. It is not scheduler order'); `next_submission_generation` itself IS compared (same number of accepted submissions)",
+        "excluded: the `target` of retained / pending envelopes (`witnessed_submission_envelopes`, `heads[..].inbox.pending`): two route aliases resolving to one head have one ingress id and the first arrival's alias is kept; the spec calls transport metadata 'not identity'; everything else in those fields is compared",
+        "restart exists only for the ticketed path (submit_intent + ingest_ticketed_invocation): plain `ingest` has no receipt correlation and `committed_ingress` is documented as not persisted across restarts for it; head eligibility is host configuration and is re-applied by the harness; pending inbox contents are re-staged by the harness from the persisted submissions (restore does not enter inboxes by design)",
+        "a no-restart twin is compared with its restarting family only on pending sets and on (head, admitted count, worldline tick, state root, commit hash): the global tick is restored from the last commit, so empty passes before a restart are not counted again",
+        "schedules whose implied partition differs (delay across an epoch boundary) are checked against the reference model only, and against each other if they form a family of their own",
+        "a scheduler pass that fails must fail identically in every schedule of the family; comparison stops there",
+        "inbox policies cannot be changed on a live head through the public API (HeadInbox::set_policy exists, the registry's mutable access is crate-private; hook H7 set_inbox_policy is not present), so policy changes between passes are not simulated",
+    ],
+    fault_kinds: &["fault.retry_while_pending", "fault.retry_after_commit", "fault.retry_after_restart", "fault.reordered_delivery", "fault.delayed_across_epoch", "fault.clean_restart"],
 };
+
+#[derive(Clone, Copy, Debug, Serialize, Deserialize, PartialEq, Eq)]
+pub enum Mode {
+    /// `WorldlineRuntime::ingest`
+    Plain,
+    /// `submit_intent` followed by the runtime owner's `ingest_ticketed_invocation`
+    Ticketed,
+}
+
+#[derive(Clone, Debug, Serialize, Deserialize, PartialEq, Eq)]
+pub enum Op {
+    Deliver(usize),
+    /// ticketed mode only: a retry through plain `WorldlineRuntime::ingest` (clients mixing the two
+    /// intake APIs); falls back to `Deliver` when the reference says this would be a first delivery
+    DeliverPlain(usize),
+    /// apply this epoch's eligibility changes here (default: after the epoch's deliveries)
+    Elig,
+}
+
+#[derive(Clone, Debug, Serialize, Deserialize, PartialEq, Eq)]
+pub struct EligChange {
+    pub wl: u8,
+    pub head: u8,
+    pub admitted: bool,
+}
+
+#[derive(Clone, Debug, Serialize, Deserialize, PartialEq, Eq)]
+pub struct Schedule {
+    /// skip the scenario's restarts (twin used to show that a restart is invisible to commits)
+    pub no_restart: bool,
+    /// after a restart re-stage undecided submissions in reverse arrival order
+    pub restage_rev: bool,
+    /// ticketed mode: the runtime owner stages an epoch's witnessed submissions only after the
+    /// epoch's last delivery (newest first) instead of right after each submission
+    #[serde(default)]
+    pub defer_staging: bool,
+    pub epochs: Vec<Vec<Op>>,
+}
 
 #[derive(Clone, Debug, Serialize, Deserialize)]
 pub struct C08 {
-    pub placeholder: u8,
+    pub world: WorldSpec,
+    pub mode: Mode,
+    pub intents: Vec<CIntent>,
+    /// identity-only variants (never delivered)
+    pub probes: Vec<CIntent>,
+    /// parent citation order (+ duplicates) per intent, then per probe
+    pub perms: Vec<Vec<usize>>,
+    pub n_epochs: usize,
+    pub elig: Vec<Vec<EligChange>>,
+    /// restart after the pass of epoch e (ticketed mode only)
+    pub restarts: Vec<bool>,
+    pub schedules: Vec<Schedule>,
+}
+
+fn short(ids: &[[u8; 32]]) -> Vec<String> {
+    ids.iter().map(|i| hex::encode(&i[..4])).collect()
+}
+
+/// Strict K-way comparison of two schedules of one family.
+fn compare_strict(a: &Trace, b: &Trace, ia: usize, ib: usize, ctx: &mut RunCtx) -> Outcome {
+    let who = format!("schedules {ia} and {ib} (same epoch partition)");
+    if a.failed_at != b.failed_at {
+        return Outcome::violation("order_dependent:pass_failure", format!("{who}: first failing pass {:?} vs {:?}", a.failed_at, b.failed_at));
+    }
+    for (e, (x, y)) in a.epochs.iter().zip(&b.epochs).enumerate() {
+        if x.pending_pre != y.pending_pre {
+            let h = (0..x.pending_pre.len()).find(|h| x.pending_pre[*h] != y.pending_pre.get(*h).cloned().unwrap_or_default()).unwrap_or(0);
+            return Outcome::violation("order_dependent:pending_set", format!("{who}: epoch {e} before the pass, head #{h}: {:?} vs {:?}", short(&x.pending_pre[h]), short(y.pending_pre.get(h).map(Vec::as_slice).unwrap_or(&[]))));
+        }
+        match (&x.pass, &y.pass) {
+            (PassOut::Ok(rx), PassOut::Ok(ry)) => {
+                if rx != ry {
+                    return Outcome::violation("order_dependent:step_records", format!("{who}: epoch {e}: {rx:?} vs {ry:?}"));
+                }
+            }
+            (px, py) => {
+                if px != py {
+                    return Outcome::violation("order_dependent:pass_failure", format!("{who}: epoch {e}: {px:?} vs {py:?}"));
+                }
+            }
+        }
+        if x.entries != y.entries {
+            let k = (0..x.entries.len().min(y.entries.len())).find(|k| x.entries[*k] != y.entries[*k]).unwrap_or(0);
+            let receipts_differ = x.entries.get(k).map(|en| &en.tick_receipt) != y.entries.get(k).map(|en| &en.tick_receipt);
+            return Outcome::violation(if receipts_differ { "order_dependent:receipts" } else { "order_dependent:provenance" }, format!("{who}: epoch {e}, entry #{k} of the pass differs"));
+        }
+        if x.pending_post != y.pending_post {
+            return Outcome::violation("order_dependent:pending_set", format!("{who}: epoch {e} after the pass: {:?} vs {:?}", x.pending_post.iter().map(|p| short(p)).collect::<Vec<_>>(), y.pending_post.iter().map(|p| short(p)).collect::<Vec<_>>()));
+        }
+    }
+    if let (Some(fa), Some(fb)) = (&a.fin, &b.fin) {
+        let d = fa.runtime_masked.diff(&fb.runtime_masked);
+        if let Some(f) = d.first() {
+            return Outcome::violation(format!("order_dependent:final_state:{f}"), format!("{who}: runtime fields {d:?} differ after masking arrival metadata"));
+        }
+        if fa.runtime_strict != fb.runtime_strict {
+            ctx.hit("reach.arrival_metadata_differs");
+        }
+        let d = fa.provenance.diff(&fb.provenance);
+        if let Some(f) = d.first() {
+            return Outcome::violation(format!("order_dependent:final_state:provenance.{f}"), format!("{who}: provenance fields {d:?} differ"));
+        }
+        if fa.engine != fb.engine {
+            return Outcome::violation("order_dependent:final_state:engine", format!("{who}: engine fingerprints differ"));
+        }
+    }
+    Outcome::Ok
+}
+
+/// Restart twin: a restart must be invisible to pending sets and commit identities.
+fn compare_relaxed(a: &Trace, b: &Trace, ia: usize, ib: usize) -> Outcome {
+    let who = format!("schedule {ia} (with restarts) and its no-restart twin {ib}");
+    if a.failed_at != b.failed_at {
+        return Outcome::violation("restart_visible:pass_failure", format!("{who}: first failing pass {:?} vs {:?}", a.failed_at, b.failed_at));
+    }
+    for (e, (x, y)) in a.epochs.iter().zip(&b.epochs).enumerate() {
+        if x.pending_pre != y.pending_pre || x.pending_post != y.pending_post {
+            return Outcome::violation("restart_visible:pending_set", format!("{who}: epoch {e}"));
+        }
+        if let (PassOut::Ok(rx), PassOut::Ok(ry)) = (&x.pass, &y.pass) {
+            let proj = |r: &Vec<warp_core::StepRecord>| r.iter().map(|s| (s.head_key, s.admitted_count, s.worldline_tick_after, s.state_root, s.commit_hash)).collect::<Vec<_>>();
+            if proj(rx) != proj(ry) {
+                return Outcome::violation("restart_visible:step_records", format!("{who}: epoch {e}: {rx:?} vs {ry:?}"));
+            }
+        }
+    }
+    Outcome::Ok
 }
 
 impl Scenario for C08 {
-    fn generate(_rng: &mut Rng, _tier: Tier, _avoid: bool) -> Self {
-        C08 { placeholder: 0 }
+    fn generate(rng: &mut Rng, tier: Tier, avoid: bool) -> Self {
+        gen::generate(rng, tier, avoid)
     }
-    fn execute(&self, _ctx: &mut RunCtx) -> Outcome {
+
+    fn execute(&self, ctx: &mut RunCtx) -> Outcome {
+        if self.schedules.is_empty() || self.n_epochs == 0 {
+            return Outcome::Ok;
+        }
+        // (d) identity
+        let all: Vec<&CIntent> = self.intents.iter().chain(self.probes.iter()).collect();
+        match ident::check_identity(&all, &self.perms) {
+            Ok(n) => ctx.count("reach.parent_set_permutations", n),
+            Err(v) => return v,
+        }
+        let ids = exec::ref_ids(self);
+        let has_restart = self.mode == Mode::Ticketed && self.restarts.iter().take(self.n_epochs).any(|r| *r);
+
+        // families = schedules with the same implied partition
+        let partitions: Vec<_> = self.schedules.iter().map(|s| implied_partition(self, s, &ids)).collect();
+        let mut traces: Vec<Trace> = Vec::with_capacity(self.schedules.len());
+        for si in 0..self.schedules.len() {
+            if partitions[si] != partitions[0] {
+                ctx.hit("fault.delayed_across_epoch");
+            }
+            let runner = match Runner::new(self, si, &ids) {
+                Ok(r) => r,
+                Err(v) => return v,
+            };
+            match runner.run(ctx) {
+                Ok(t) => traces.push(t),
+                Err(v) => return v,
+            }
+        }
+        let mut done: BTreeSet<usize> = BTreeSet::new();
+        let mut nontrivial = false;
+        for lead in 0..self.schedules.len() {
+            if done.contains(&lead) {
+                continue;
+            }
+            let fam: Vec<usize> = (lead..self.schedules.len()).filter(|s| partitions[*s] == partitions[lead]).collect();
+            done.extend(fam.iter().copied());
+            // members that restart and members that do not (twins) are each compared strictly among
+            // themselves; one restarting member is compared with one twin on commit identities only
+            let restarting = |s: usize| has_restart && !self.schedules[s].no_restart;
+            let with: Vec<usize> = fam.iter().copied().filter(|s| restarting(*s)).collect();
+            let without: Vec<usize> = fam.iter().copied().filter(|s| !restarting(*s)).collect();
+            for group in [&with, &without] {
+                for s in group.iter().skip(1) {
+                    let out = compare_strict(&traces[group[0]], &traces[*s], group[0], *s, ctx);
+                    if out != Outcome::Ok {
+                        return out;
+                    }
+                }
+            }
+            if let (Some(a), Some(b)) = (with.first(), without.first()) {
+                let out = compare_relaxed(&traces[*a], &traces[*b], *a, *b);
+                if out != Outcome::Ok {
+                    return out;
+                }
+                ctx.hit("reach.restart_twin_compared");
+            }
+            if lead == 0 {
+                let distinct: BTreeSet<String> = fam.iter().map(|s| format!("{:?}", self.schedules[*s].epochs)).collect();
+                if distinct.len() >= 2 && partitions[0].iter().any(|p| p.len() >= 2) {
+                    nontrivial = true;
+                }
+                if fam.len() >= 2 {
+                    ctx.count("reach.family_members_compared", fam.len() as u64 - 1);
+                }
+            } else if fam.len() >= 2 {
+                ctx.hit("reach.second_family_compared");
+            }
+        }
+        for t in &traces {
+            for e in &t.epochs {
+                ctx.trace_str(&format!("{:?}", e.pass));
+            }
+        }
+        if nontrivial {
+            let sig = serde_json::to_vec(&(&self.world, &self.intents, &partitions[0])).unwrap_or_default();
+            ctx.nontrivial(&sig);
+        }
         Outcome::Ok
+    }
+
+    fn shrink_candidates(&self) -> Vec<Self> {
+        let mut out = Vec::new();
+        // drop a schedule (keep >= 2)
+        if self.schedules.len() > 2 {
+            for i in (0..self.schedules.len()).rev() {
+                let mut s = self.clone();
+                s.schedules.remove(i);
+                out.push(s);
+            }
+        }
+        // drop an intent
+        for i in (0..self.intents.len()).rev() {
+            out.push(self.without_intent(i));
+        }
+        // drop all retries of a schedule, then single retries
+        for si in 0..self.schedules.len() {
+            let mut s = self.clone();
+            let mut seen = BTreeSet::new();
+            let mut changed = false;
+            for ops in &mut s.schedules[si].epochs {
+                ops.retain(|op| match op.intent() {
+                    Some(i) => {
+                        let first = seen.insert(i);
+                        changed |= !first;
+                        first
+                    }
+                    None => true,
+                });
+            }
+            if changed {
+                out.push(s);
+            }
+        }
+        for si in 0..self.schedules.len() {
+            let mut seen = BTreeSet::new();
+            for e in 0..self.schedules[si].epochs.len() {
+                for k in 0..self.schedules[si].epochs[e].len() {
+                    if let Some(i) = self.schedules[si].epochs[e][k].intent() {
+                        if !seen.insert(i) {
+                            let mut s = self.clone();
+                            s.schedules[si].epochs[e].remove(k);
+                            out.push(s);
+                        }
+                    }
+                }
+            }
+        }
+        // merge epochs e and e+1; drop a trailing epoch without deliveries
+        for e in 0..self.n_epochs.saturating_sub(1) {
+            let mut s = self.clone();
+            for sch in &mut s.schedules {
+                if sch.epochs.len() > e + 1 {
+                    let next = sch.epochs.remove(e + 1);
+                    sch.epochs[e].extend(next);
+                }
+            }
+            if s.elig.len() > e + 1 {
+                let next = s.elig.remove(e + 1);
+                s.elig[e].extend(next);
+            }
+            if s.restarts.len() > e + 1 {
+                s.restarts.remove(e);
+            }
+            s.n_epochs -= 1;
+            out.push(s);
+        }
+        if self.n_epochs > 1 && self.schedules.iter().all(|s| s.epochs.get(self.n_epochs - 1).is_none_or(|ops| !ops.iter().any(|o| o.intent().is_some()))) {
+            let mut s = self.clone();
+            s.n_epochs -= 1;
+            out.push(s);
+        }
+        // drop restarts / eligibility changes / ticketed mode
+        for e in 0..self.restarts.len() {
+            if self.restarts[e] {
+                let mut s = self.clone();
+                s.restarts[e] = false;
+                out.push(s);
+            }
+        }
+        for e in 0..self.elig.len() {
+            for k in 0..self.elig[e].len() {
+                let mut s = self.clone();
+                s.elig[e].remove(k);
+                out.push(s);
+            }
+        }
+        if self.mode == Mode::Ticketed {
+            let mut s = self.clone();
+            s.mode = Mode::Plain;
+            out.push(s);
+        }
+        {
+            let mut s = self.clone();
+            let mut changed = false;
+            for sch in &mut s.schedules {
+                changed |= std::mem::take(&mut sch.defer_staging) | std::mem::take(&mut sch.restage_rev);
+                for (e, ops) in sch.epochs.iter_mut().enumerate() {
+                    for op in ops.iter_mut() {
+                        if let Op::DeliverPlain(i) = op {
+                            *op = Op::Deliver(*i);
+                            changed = true;
+                        }
+                    }
+                    if self.elig.get(e).is_none_or(Vec::is_empty) {
+                        let n = ops.len();
+                        ops.retain(|o| !matches!(o, Op::Elig));
+                        changed |= ops.len() != n;
+                    }
+                }
+            }
+            if changed {
+                out.push(s);
+            }
+        }
+        // drop the last worldline / a non-default head
+        if self.world.worldlines.len() > 1 {
+            let id = self.world.worldlines[self.world.worldlines.len() - 1].id;
+            let mut s = self.clone();
+            s.world.worldlines.pop();
+            let doomed: Vec<usize> = (0..s.intents.len()).filter(|i| s.intents[*i].base.wl() == id).collect();
+            for i in doomed.into_iter().rev() {
+                s = s.without_intent(i);
+            }
+            for ch in &mut s.elig {
+                ch.retain(|c| c.wl != id);
+            }
+            s.probes.retain(|p| p.base.wl() != id);
+            s.perms.clear();
+            out.push(s);
+        }
+        for (wi, wl) in self.world.worldlines.iter().enumerate() {
+            for (hi, h) in wl.heads.iter().enumerate() {
+                if h.default || wl.heads.len() < 2 {
+                    continue;
+                }
+                let mut s = self.clone();
+                s.world.worldlines[wi].heads.remove(hi);
+                let gone = |t: &TargetSpec| match t {
+                    TargetSpec::Exact { wl: w, head } => *w == wl.id && *head == h.label,
+                    TargetSpec::Inbox { wl: w, name } => *w == wl.id && Some(*name) == h.inbox,
+                    TargetSpec::Default { .. } => false,
+                };
+                let doomed: Vec<usize> = (0..s.intents.len()).filter(|i| gone(&s.intents[*i].base.target)).collect();
+                for i in doomed.into_iter().rev() {
+                    s = s.without_intent(i);
+                }
+                for ch in &mut s.elig {
+                    ch.retain(|c| !(c.wl == wl.id && c.head == h.label));
+                }
+                out.push(s);
+            }
+        }
+        // simpler policies
+        for (wi, wl) in self.world.worldlines.iter().enumerate() {
+            for (hi, h) in wl.heads.iter().enumerate() {
+                if h.policy != crate::world::runtime::PolicySpec::AcceptAll {
+                    let mut s = self.clone();
+                    s.world.worldlines[wi].heads[hi].policy = crate::world::runtime::PolicySpec::AcceptAll;
+                    out.push(s);
+                }
+            }
+        }
+        // probes, parents, program steps, workers
+        if !self.probes.is_empty() {
+            let mut s = self.clone();
+            s.probes.clear();
+            s.perms.truncate(s.intents.len());
+            out.push(s);
+        }
+        for i in 0..self.intents.len() {
+            if !self.intents[i].parents.is_empty() {
+                let mut s = self.clone();
+                s.intents[i].parents.pop();
+                s.perms.clear();
+                out.push(s);
+            }
+            if self.intents[i].base.prog.steps.len() > 1 {
+                for k in 0..self.intents[i].base.prog.steps.len() {
+                    let mut s = self.clone();
+                    s.intents[i].base.prog.steps.remove(k);
+                    out.push(s);
+                }
+            }
+        }
+        if self.world.workers > 1 {
+            let mut s = self.clone();
+            s.world.workers = 1;
+            out.push(s);
+        }
+        out
+    }
+}
+
+impl Op {
+    pub fn intent(&self) -> Option<usize> {
+        match self {
+            Op::Deliver(i) | Op::DeliverPlain(i) => Some(*i),
+            Op::Elig => None,
+        }
+    }
+    fn intent_mut(&mut self) -> Option<&mut usize> {
+        match self {
+            Op::Deliver(i) | Op::DeliverPlain(i) => Some(i),
+            Op::Elig => None,
+        }
+    }
+}
+
+impl C08 {
+    fn without_intent(&self, i: usize) -> C08 {
+        let mut s = self.clone();
+        if i >= s.intents.len() {
+            return s;
+        }
+        s.intents.remove(i);
+        if i < s.perms.len() {
+            s.perms.remove(i);
+        }
+        for sch in &mut s.schedules {
+            for ops in &mut sch.epochs {
+                ops.retain(|op| op.intent() != Some(i));
+                for op in ops.iter_mut() {
+                    if let Some(k) = op.intent_mut() {
+                        if *k > i {
+                            *k -= 1;
+                        }
+                    }
+                }
+            }
+        }
+        s
     }
 }
